@@ -116,6 +116,8 @@ def analyze(pattern: str, segs: list[Seg], q: Q, label: str):
     """Returns dict(verdict=holds|candidate|inconclusive, detail, counterexample)."""
     present = {s.group for s in segs if s.group}
     els, ngroups = rx.flatten(pattern)
+    if any(e.kind == "head" for e in els):
+        return {"verdict": "inconclusive", "detail": "pattern applied with search() and no leading ^: captures not analysed"}
     els = variants(els, present)
     live_chunks, live_order = chunk_live(els)
     spec_chunks, spec_order = chunk_spec(segs)
